@@ -322,7 +322,7 @@ inline void campaign(const char* wlname, const Args& a, vh::Rng& rng, const char
   bool ctl = a.mode == "ctl";
   const char* em = getenv("VERIF_FE_MULT");   // a check may ask for more executions per worklist
   if (em) mult *= atoi(em) > 0 ? atoi(em) : 1;
-  int execs = mult * (ctl ? (a.thorough ? 120 : 14) : (a.thorough ? 30 : 5));
+  int execs = mult * (ctl ? (a.thorough ? 60 : 14) : (a.thorough ? 15 : 5));
   bool level = std::string(kind) != "plain";
   for (int e = 0; e < execs; ++e) {
     uint64_t s = rng.next();
@@ -336,7 +336,7 @@ inline void campaign(const char* wlname, const Args& a, vh::Rng& rng, const char
     if (g_shape == 1 && !rc.conflicts) g_shape = 0;
     if (g_shape == 1 && rc.threads < 2) rc.threads = 2;
     if (ctl) genProgram(prog, pr, 1 + (int)pr.below(5), rc.conflicts ? 1 + (int)pr.below(3) : 0, 2, 2, level, true, level ? 3 : 0);
-    else genProgram(prog, pr, 1 + (int)pr.below(a.thorough ? 400 : 60), rc.conflicts ? 1 + (int)pr.below(6) : 0, 3, 2, level, true, level ? 6 : 0);
+    else genProgram(prog, pr, 1 + (int)pr.below(a.thorough ? 160 : 60), rc.conflicts ? 1 + (int)pr.below(6) : 0, 3, 2, level, true, level ? 6 : 0);
     if (descending) for (auto& it : prog.items) it.level = -it.level;
     g_shape = 0;
     runOne<WL>(prog, rc);
